@@ -3,7 +3,7 @@ From Coq Require Import String List Bool Arith.
 From TS Require Import Model.Str Model.Outcome Model.Unicode Model.Syntax Model.Attrs Model.Types Model.Parse Model.Lang.Common Model.Lang.Decl.
 From TS Require Import Model.Lang.TypeScript Model.Lang.Kotlin Model.Lang.Swift Model.Lang.Scala Model.Lang.Go Model.Lang.Python.
 From TS Require Import Spec.Serde Spec.C04Spec Spec.C04Readers.
-From TS Require Proofs.FrontTypes Proofs.FrontAttrs Proofs.C04 Proofs.C04_Back Proofs.C04_Matrix.
+From TS Require Proofs.FrontTypes Proofs.FrontAttrs Proofs.C04 Proofs.C04_Back Proofs.C04_Matrix Proofs.GoAcronyms.
 Import ListNotations.
 Local Open Scope nat_scope.
 
@@ -333,6 +333,120 @@ Theorem C04_back_go_payload_partial :
                                    (c04r_seen (go_c04_typed decl member C04Payload x)) = true.
 Proof. exact Proofs.C04_Back.go_payload_good. Qed.
 Print Assumptions C04_back_go_payload_partial.
+
+(* FULL with respect to acronyms (Proofs/GoAcronyms.v): fields and payloads of Go for EVERY list of alphanumeric
+   uppercase_acronyms ([A-Za-z0-9]*: what an acronym is; ga_alnum), on ASCII type names and type_mappings values
+   (ga_texp_asciib; a Unicode table agreeing with ASCII below 128).  On such input the textual rewrite of go.rs:579
+   never panics and distributes over the `*`, `[`, `]`, `, ` of the printed type: the type written at the field is
+   `*` + rewrite(translation of T) iff Option, and the reference it is compared with is what the same back end
+   writes at the same position for T: the rewritten translation y' of the type with one Option layer removed
+   (go_acronyms_ty leaves the state alone: it yields y' from every state).  Non-alphanumeric acronyms (a pattern
+   could straddle `]`, `*`) and non-ASCII names (byte/char offset drift, C07) are outside this theorem. *)
+Theorem C04_back_go_field :
+  forall (uc : unicode), unicode_ok uc ->
+  forall (cfg : go_config), go_no_pointer_slice cfg = false ->
+    forallb (forallb Proofs.GoAcronyms.ga_alnum) (go_uppercase_acronyms cfg) = true ->
+  forall f g s m s' decl,
+    type_override f Go = None ->
+    (is_optional (fty f) = true -> tmap_get (go_type_mappings cfg) (rtype_display (fty f)) = None) ->
+    Proofs.GoAcronyms.ga_texp_asciib cfg (fty f) = true ->
+    go_member_of uc cfg g f s = Ok (m, s') ->
+    exists y s3 s4 y', go_texp cfg g (Proofs.C04.c04_strip (fty f)) s3 = Ok (y, s4) /\
+      (forall s5, go_acronyms_ty uc cfg y s5 = Ok (y', s5)) /\
+      good_C04 Go (Proofs.C04_Back.c04_expect_of C04Field (fty f) (has_default f) (go_show y')) (c04r_seen (go_c04_member decl m)) = true.
+Proof. exact Proofs.C04_Back.go_field_good_acr. Qed.
+Print Assumptions C04_back_go_field.
+
+Theorem C04_back_go_payload :
+  forall (uc : unicode), unicode_ok uc ->
+  forall (cfg : go_config), go_no_pointer_slice cfg = false ->
+    forallb (forallb Proofs.GoAcronyms.ga_alnum) (go_uppercase_acronyms cfg) = true ->
+  forall sh cs sn tag t vsh s v s',
+    (is_optional t = true -> tmap_get (go_type_mappings cfg) (rtype_display t) = None) ->
+    Proofs.GoAcronyms.ga_texp_asciib cfg t = true ->
+    go_variant_of uc cfg sh cs sn tag (VTuple t vsh) s = Ok (v, s') ->
+    exists x p y s3 s4 y', gv_content v = GCType x p /\ go_texp cfg [] (Proofs.C04.c04_strip t) s3 = Ok (y, s4) /\
+      (forall s5, go_acronyms_ty uc cfg y s5 = Ok (y', s5)) /\
+      forall decl member, good_C04 Go (Proofs.C04_Back.c04_expect_of C04Payload t false (go_show y'))
+                                   (c04r_seen (go_c04_typed decl member C04Payload x)) = true.
+Proof. exact Proofs.C04_Back.go_payload_good_acr. Qed.
+Print Assumptions C04_back_go_payload.
+
+(* ---- Go, BOTH values of no_pointer_slice (and alphanumeric acronyms, ASCII names as above).
+   Under `no_pointer_slice = true` format_special_type prints Option<Vec<T>> as the translation of Vec<T> (no `*`):
+   the verdict good_C04_go takes the flag  bare = no_pointer_slice && the IR type is Option<Vec<_>>  and demands
+   `,omitempty` iff Option or default (fields), the `*` iff (Option or default) and not bare, the text under the
+   marker = the same back end's text for T.  With bare = false it IS good_C04 Go. *)
+Theorem C04_good_go_agrees : forall e s, good_C04_go false e s = good_C04 Go e s.
+Proof. exact Proofs.C04_Back.good_C04_go_false. Qed.
+Print Assumptions C04_good_go_agrees.
+
+Theorem C04_back_go_field_any_slice_mode :
+  forall (uc : unicode), unicode_ok uc ->
+  forall (cfg : go_config), forallb (forallb Proofs.GoAcronyms.ga_alnum) (go_uppercase_acronyms cfg) = true ->
+  forall f g s m s' decl,
+    type_override f Go = None ->
+    (is_optional (fty f) = true -> tmap_get (go_type_mappings cfg) (rtype_display (fty f)) = None) ->
+    Proofs.GoAcronyms.ga_texp_asciib cfg (fty f) = true ->
+    go_member_of uc cfg g f s = Ok (m, s') ->
+    exists y s3 s4 y', go_texp cfg g (Proofs.C04.c04_strip (fty f)) s3 = Ok (y, s4) /\
+      (forall s5, go_acronyms_ty uc cfg y s5 = Ok (y', s5)) /\
+      good_C04_go (c04_go_bare (go_no_pointer_slice cfg) (fty f))
+                  (Proofs.C04_Back.c04_expect_of C04Field (fty f) (has_default f) (go_show y')) (c04r_seen (go_c04_member decl m)) = true.
+Proof. exact Proofs.C04_Back.go_field_good_all. Qed.
+Print Assumptions C04_back_go_field_any_slice_mode.
+
+Theorem C04_back_go_payload_any_slice_mode :
+  forall (uc : unicode), unicode_ok uc ->
+  forall (cfg : go_config), forallb (forallb Proofs.GoAcronyms.ga_alnum) (go_uppercase_acronyms cfg) = true ->
+  forall sh cs sn tag t vsh s v s',
+    (is_optional t = true -> tmap_get (go_type_mappings cfg) (rtype_display t) = None) ->
+    Proofs.GoAcronyms.ga_texp_asciib cfg t = true ->
+    go_variant_of uc cfg sh cs sn tag (VTuple t vsh) s = Ok (v, s') ->
+    exists x p y s3 s4 y', gv_content v = GCType x p /\ go_texp cfg [] (Proofs.C04.c04_strip t) s3 = Ok (y, s4) /\
+      (forall s5, go_acronyms_ty uc cfg y s5 = Ok (y', s5)) /\
+      forall decl member, good_C04_go (c04_go_bare (go_no_pointer_slice cfg) t)
+                                      (Proofs.C04_Back.c04_expect_of C04Payload t false (go_show y'))
+                                      (c04r_seen (go_c04_typed decl member C04Payload x)) = true.
+Proof. exact Proofs.C04_Back.go_payload_good_all. Qed.
+Print Assumptions C04_back_go_payload_any_slice_mode.
+
+Theorem C04_back_go_alias_any_slice_mode :
+  forall (uc : unicode) (cfg : go_config) cs a s ds s',
+    (is_optional (atype a) = true -> tmap_get (go_type_mappings cfg) (rtype_display (atype a)) = None) ->
+    go_decl_of uc cfg cs (ItAlias a) s = Ok (ds, s') ->
+    exists name x y s3 s4, flat_map go_c04_rows ds = [go_c04_typed name [] C04Alias x] /\
+      go_texp cfg [] (Proofs.C04.c04_strip (atype a)) s3 = Ok (y, s4) /\
+      good_C04_go (c04_go_bare (go_no_pointer_slice cfg) (atype a))
+                  (Proofs.C04_Back.c04_expect_of C04Alias (atype a) false (go_show y)) (c04r_seen (go_c04_typed name [] C04Alias x)) = true.
+Proof. exact Proofs.C04_Back.go_alias_good_all. Qed.
+Print Assumptions C04_back_go_alias_any_slice_mode.
+
+(* the tag part of a Go field - `,omitempty` iff Option or default, write_field's own `*` iff default on a non-Option
+   type - for EVERY configuration and with or without a type override (#[typeshare(go(type = ".."))]: the type text is
+   then the user's; good_C04_go_override judges the tag alone) *)
+Theorem C04_back_go_field_tag :
+  forall (uc : unicode) (cfg : go_config) f g s m s' decl ref,
+    go_member_of uc cfg g f s = Ok (m, s') ->
+    gm_omitempty m = (is_optional (fty f) || has_default f) /\
+    gm_star m = (has_default f && negb (is_optional (fty f))) /\
+    good_C04_go_override (Proofs.C04_Back.c04_expect_of C04Field (fty f) (has_default f) ref) (c04r_seen (go_c04_member decl m)) = true.
+Proof. exact Proofs.C04_Back.go_field_tag_any. Qed.
+Print Assumptions C04_back_go_field_tag.
+
+(* the lemma behind both: on an ASCII printed type with alphanumeric acronyms, acronyms_to_uppercase applied to the
+   printed TEXT (what go.rs:512 / :360 do) is the type tree rewritten name by name, printed: same length, only the
+   ASCII case of letters differs, nothing panics, the printing state is untouched *)
+Theorem C04_go_acronyms_on_type :
+  forall (uc : unicode), unicode_ok uc ->
+  forall (cfg : go_config), forallb (forallb Proofs.GoAcronyms.ga_alnum) (go_uppercase_acronyms cfg) = true ->
+  forall (t : go_ty) s, forallb is_ascii (go_show t) = true ->
+    go_acronyms_ty uc cfg t s = Ok (Proofs.GoAcronyms.ga_ty_map (Proofs.GoAcronyms.ga_T cfg) t, s) /\
+    go_show (Proofs.GoAcronyms.ga_ty_map (Proofs.GoAcronyms.ga_T cfg) t) = Proofs.GoAcronyms.ga_T cfg (go_show t) /\
+    List.length (Proofs.GoAcronyms.ga_T cfg (go_show t)) = List.length (go_show t) /\
+    str_upper_ascii (Proofs.GoAcronyms.ga_T cfg (go_show t)) = str_upper_ascii (go_show t).
+Proof. exact Proofs.GoAcronyms.ga_acronyms_on_type. Qed.
+Print Assumptions C04_go_acronyms_on_type.
 
 (* ------------------------------------------------------------------ the finite marker matrix *)
 (* BOUND: 6 languages x 10 base types (String, u32, bool, Vec<String>, Vec<Option<u8>>, HashMap<String,u32>,
